@@ -56,6 +56,14 @@ const MARGIN_CH: &[(u32, &str)] = &[
     (1, "\u{2003}"),
     (1, "\u{c}"),
     (1, "\r"),
+    // whitespace characters that share leading UTF-8 bytes with the ones
+    // above (byte-wise prefix comparison would split a character)
+    (1, "\u{2002}"),
+    (1, "\u{2009}"),
+    (1, "\u{85}"),
+    (1, "\u{3000}"),
+    (1, "\u{1680}"),
+    (1, "\u{b}"),
 ];
 
 const CONTENT: &[(u32, &str)] = &[
